@@ -139,7 +139,8 @@ class PipeSuite:
         opts = opts or {}
         with tempfile.NamedTemporaryFile("w", suffix=".txt", dir=C.BUILD, delete=False) as f:
             for l in lines:
-                f.write(l.split("\t")[0] + "\n")
+                for part in l.split("\t")[0].split(" ||| "):      # a metamorphic pair is two case lines
+                    f.write(part + "\n")
             path = f.name
         try:
             h = self.harness(opts.get("release", False), opts.get("parallel", True))
@@ -157,13 +158,14 @@ class PipeSuite:
     def observe(self, case):
         """the real observation of one case (for replay files)"""
         with tempfile.NamedTemporaryFile("w", suffix=".txt", dir=C.BUILD, delete=False) as f:
-            f.write(case.split("\t")[0] + "\n")
+            for part in case.split("\t")[0].split(" ||| "):
+                f.write(part + "\n")
             path = f.name
         try:
             p = subprocess.run([self.harness()] + self.cmd_prefix() + ["--cases", path], env=C.ENV, stdout=subprocess.PIPE,
                                stderr=subprocess.PIPE, text=True, timeout=300)
-            line = p.stdout.strip().split("\n")[0] if p.stdout.strip() else ""
-            return line.partition("\t")[2]
+            lines = [l.partition("\t")[2] for l in p.stdout.strip().split("\n")] if p.stdout.strip() else [""]
+            return " ||| ".join(lines)
         except Exception as e:      # noqa
             return "observe failed: %s" % e
         finally:
@@ -260,6 +262,15 @@ class PlanSuite(PipeSuite):
 
     def gens(self, tier, seed, sspec):
         s = str(seed)
+        if sspec.get("meta"):
+            n = {"quick": "200", "thorough": "6000"}.get(tier, "1500")
+            g = [("metamorphic pairs (renamed systems, injectively relabelled resources across types/dynamic ids, permuted+duplicated access lists)",
+                  ["--gen", "meta", "--count", n, "--seed", s], {}),
+                 ("metamorphic pairs, crate built without the `parallel` feature", ["--gen", "meta", "--count", n, "--seed", s], {"parallel": False}),
+                 ("random programs, crate built without the `parallel` feature", ["--gen", "random", "--count", str(int(n) // 2), "--seed", s], {"parallel": False})]
+            if not os.path.exists(C.harness_bin(False, False)):
+                g = [x for x in g if x[2].get("parallel", True)]
+            return g
         if tier == "quick":
             g = [("exhaustive<=3sys stride16", ["--gen", "exh", "--count", "16", "--seed", s], {}),
                  ("random", ["--gen", "random", "--count", "900", "--seed", s], {}),
@@ -286,6 +297,8 @@ class PlanSuite(PipeSuite):
 
     def shrink(self, case, oracle):
         head, _, prog = case.partition(" :: ")
+        if "meta=" in head:
+            return case         # a metamorphic pair is replayed as a pair
         try:
             items = parse_prog(prog.split())
         except Exception:       # noqa
